@@ -44,6 +44,10 @@ func vEncDec(c *vCtx, enc *Encryptor, level int, tag string) {
 			shared = shared || vSharesAtomOfClass(ct.Value[0].Coeffs[k], ct.Value[1].Coeffs[k], s.Modulus, vError)
 		}
 		vAssert(!shared, tag+"-components-carry-independent-error-samples")
+	} else if pk, ok := enc.encKey.(*PublicKey); ok {
+		// native replay: the attack that a shared error sample enables.  With e0 = e1, (c0 - c1 - m)/(pk0 - pk1) is
+		// the small encryption randomness u; with independent samples it is a uniform-looking element.
+		vAssert(!vQuotientIsSmall(rQ, ct, pt, pk), tag+"-components-carry-independent-error-samples")
 	}
 	// wrong key: the uniform part must survive
 	out2 := NewPlaintext(params, level)
@@ -153,4 +157,31 @@ func VerifH_C03_EncryptDecrypt() {
 		}
 	}
 	vCover("C03-reached")
+}
+
+// vQuotientIsSmall (native): w = (c0 - c1 - m)·(pk0 - pk1)^-1 modulo the first prime has only small coefficients.
+func vQuotientIsSmall(rQ *ring.Ring, ct *Ciphertext, pt *Plaintext, pk *PublicKey) bool {
+	s := rQ.SubRings[0]
+	q, n := s.Modulus, rQ.N()
+	t, d := make([]uint64, n), make([]uint64, n)
+	s.Sub(ct.Value[0].Coeffs[0], ct.Value[1].Coeffs[0], t)
+	s.Sub(t, pt.Value.Coeffs[0], t)
+	if !ct.IsNTT {
+		s.NTT(t, t)
+	}
+	s.Sub(pk.Value[0].Q.Coeffs[0], pk.Value[1].Q.Coeffs[0], d) // NTT and Montgomery form
+	s.IMForm(d, d)
+	for j := range d {
+		if d[j] == 0 {
+			return false
+		}
+		t[j] = ring.BRed(t[j], ring.ModExp(d[j], q-2, q), q, s.BRedConstant)
+	}
+	s.INTT(t, t)
+	for _, w := range t {
+		if w > 1<<10 && w < q-1<<10 {
+			return false
+		}
+	}
+	return true
 }
